@@ -44,6 +44,15 @@ structure St (R : Type) where
   markers : List (String × Nat) := []
   wal : List Ev := []
 
+/-- plain integers as a (one-component) resource algebra, for examples and counterexamples -/
+instance intAlg : ResAlg Int where
+  zero := 0
+  add_assoc := Int.add_assoc
+  add_comm := Int.add_comm
+  zero_add := Int.zero_add
+  neg_add := Int.add_left_neg
+  sub_def := fun _ _ => Int.sub_eq_add_neg
+
 variable {R : Type} [ResAlg R]
 
 def sumR : List R → R
